@@ -54,20 +54,20 @@ def queries(tier, seed):
     # ------------------------------------------------------------------ PNM: [type, w, h, maxval, variant]
     for t_ in range(1, 7):
         for (w, h) in ((3, 2), (9, 1), (1, 1)):
-            for var in (0, 1, 2, 3):
-                if var == 3 and t_ not in (2, 3): continue
+            for var in (0, 1, 2, 3, 4):
+                if var in (3, 4) and t_ not in (2, 3): continue
                 for mx in (255, 300, 1):
                     if mx != 255 and (var != 0 or (w, h) != (3, 2)): continue
                     hdr_len = 3 + (3 if var == 1 else 0) + (11 if var == 2 else len(str(w))) + 1 + len(str(h)) + 1 + (0 if t_ in (1, 4) else len(str(mx)) + 1)
                     ch = 3 if t_ in (3, 6) else 1
                     if t_ == 1: data = w * h * 2
-                    elif t_ in (2, 3): data = w * h * ch * 4 + (14 if var == 3 else 0)
+                    elif t_ in (2, 3): data = w * h * ch * 4 + (14 if var == 3 else (13 if var == 4 else 0))
                     elif t_ == 4: data = ((w + 7) // 8) * h
                     else: data = w * h * ch
                     full = hdr_len + data
                     name = 'p%d_%dx%d_m%d_v%d' % (t_, w, h, mx, var)
                     pix = 'gil::rgb8_pixel_t' if t_ in (3, 6) else 'gil::gray8_pixel_t'
-                    UNW[0] = 24 if (t_ <= 3 or var == 2) else 16; USET[0] = [(r'^F_h_read$', 120)] if t_ <= 3 else []   # harness loops constraining ascii data
+                    UNW[0] = 26 if (t_ <= 3 or var == 2) else 16; USET[0] = [(r'^F_h_read$', 120)] if t_ <= 3 else []   # harness loops constraining ascii data
                     lens = sorted(set([0, 1, 2, 3, hdr_len - 1, hdr_len, hdr_len + 1, full - 1, full, full + 2]))
                     for L in [x for x in lens if x >= 0]:
                         quick = (w, h) == (3, 2) and L in (full, full - 1, hdr_len) and (var == 0 or L == full) and mx in (255, 300)
@@ -96,6 +96,44 @@ def queries(tier, seed):
                             add('targa', name, 'convert_image', 1, None, [idlen, 0, imgtype, bpp, desc, w, h] + rle, L, 'quick' if (quick and imgtype == 2) else 'thorough')
                             add('targa', name, 'read_image', 2, pix, [idlen, 0, imgtype, bpp, desc, w, h] + rle, L, 'quick' if (quick and desc in (0, 8)) else 'thorough')
                         if L in (0, 3, 17, 18): add('targa', name, 'info', 1, None, [idlen, 0, imgtype, bpp, desc, w, h] + rle, L, 'quick' if (quick or ((w, h) == (3, 2) and idlen == 0 and imgtype == 2 and bpp == 24 and desc == 0)) else 'thorough')
+    # ------------------------------------------------------------------ run-length-coded data with concrete structure, symbolic colour values
+    S = 256
+    bmp8_streams = {
+        'valid':        [3, S, 0, 0, 2, S, 1, S, 0, 0, 0, 1],
+        'cross_row':    [2, S, 3, S, 0, 0, 3, S, 0, 1],
+        'long_run':     [7, S, 0, 0, 200, S, 0, 1],
+        'absolute':     [0, 3, S, S, S, 0, 0, 0, 0, 4, S, S, S, S, 0, 1],
+        'absolute_odd_cross': [2, S, 0, 3, S, S, S, 0, 0, 0, 0, 1],
+        'delta':        [0, 2, 1, 1, 1, S, 0, 0, 0, 2, 5, 5, 1, S, 0, 1],
+        'no_eob':       [3, S, 0, 0, 3, S],
+        'extra_rows':   [3, S, 0, 0, 3, S, 0, 0, 3, S, 0, 0, 3, S, 0, 1],
+    }
+    for comp, bpp in ((1, 8), (2, 4)):
+        for sn, st in bmp8_streams.items():
+            base = 54; pal = 16; ds = base + pal
+            for L in sorted(set([ds + len(st), ds + len(st) - 1, ds + len(st) // 2])):
+                par = [1, 40, bpp, comp, 3, 2, 4, ds, -1, ds, 0, 0, 0, 0, 0] + [len(st)] + st
+                p = [L] + par
+                d = dict(FORMAT=1, ENTRY=E['convert_image'], DEV=1)
+                qs.append(Q('bmp/convert_image/file/rle%d_%s/L%d' % (bpp, sn, L), 'C11/read.cpp', 'h_read', defs=d, params=p, rt=['file'], unwind=20,
+                            unwindset=[(r'St6vector|fill_n|uninitialized|read_palette', 310)], rt_unwind=L + 4, mem_unwind=400, cdefs=dict(VP_FILE_MAX=L + 8),
+                            tier='thorough', timeout=300,   # attempts: no verdict within 300 s even with concrete run-length structure
+                            note='run-length structure concrete, colour indices symbolic'))
+    tga_streams = {   # 24-bit, 3x2 = 6 pixels; packet header: 0x80|(n-1) run of one pixel, n-1 raw pixels
+        'valid':      [0x82, S, S, S, 0x02, S, S, S, S, S, S, S, S, S],
+        'run_over':   [0x82, S, S, S, 0x85, S, S, S],
+        'raw_over':   [0x82, S, S, S, 0x04, S, S, S, S, S, S, S, S, S, S, S, S, S, S, S],
+        'max_run':    [0xFF, S, S, S],
+        'truncated_run': [0x85, S, S],
+    }
+    for sn, st in tga_streams.items():
+        ds = 18
+        for L in sorted(set([ds + len(st), ds + len(st) - 1])):
+            par = [0, 0, 10, 24, 0, 3, 2, -1, ds, 0, 0, 0, 0, 0, 0] + [len(st)] + st
+            # targa_file: mask at base+7 (param index 8), datastart base+8; structured stream from base+14
+            qs.append(Q('targa/read_image/file/rle_%s/L%d' % (sn, L), 'C11/read.cpp', 'h_read', defs=dict(FORMAT=3, ENTRY=E['read_image'], DEV=1, PIX='gil::rgb8_pixel_t'), params=[L] + par, rt=['file'],
+                        unwind=140, rt_unwind=L + 4, mem_unwind=400, cdefs=dict(VP_FILE_MAX=L + 8), tier='thorough', timeout=300,
+                        note='attempt: run-length structure concrete, colour values symbolic; no verdict within 300 s'))
     names = set(); out = []
     for q in qs:
         if q.name in names: continue
